@@ -21,6 +21,9 @@ class ContentNode(Node):
         self.text = text
 
     def __str__(self) -> str:
+        if "{%" in self.text or "{{" in self.text or "{#" in self.text:
+            # Text with markup delimiters in it is the body of a raw block.
+            return f"{{% raw %}}{self.text}{{% endraw %}}"
         return self.text
 
     def render_to_output(self, _: RenderContext, buffer: TextIO) -> int:
